@@ -619,6 +619,34 @@ func init() {
 						}
 						break
 					}
+					// numbers inside the data after the postfix operators were applied to them in the same render
+					nNum := 0
+					for _, p := range allPaths {
+						if p.fail || p.arr != nil || (p.want.K != model.KFloat && p.want.K != model.KInt) || strings.HasSuffix(p.src, ")") || nNum >= 3 {
+							continue
+						}
+						nNum++
+						src := "{{ " + p.src + "-- }}{{ " + p.src + "++ }}{{ (" + p.src + ")-- }}\x01{{ " + p.src + " }}\x02"
+						c.Input(map[string]any{"source": src, "data": desc})
+						got := evalString(c, src, data)
+						c.Nontrivial("after-postfix|" + p.src + "|" + desc)
+						if got.Panicked {
+							continue
+						}
+						if i1 := strings.Index(got.Out, "\x01"); got.Err != nil || i1 < 0 || got.Out[i1:] != "\x01"+p.want.Print()+"\x02" {
+							c.Violation("number-changed-by-postfix", fmt.Sprintf("after -- and ++ on %s it renders %s, the Go value holds %q", p.src, got.Describe(), p.want.Print()), map[string]any{"path": p.src, "data": desc})
+						}
+					}
+					// the data is still what the caller passed when a component argument list names it next to
+					// arguments of the same names
+					if i%16 == 0 {
+						files := map[string]string{"components/card.tw": "[{{ label }}|{{ title }}|{{ zed }}]", "page.tw": "@component(\"~card\", {label: \"arg\", title: label, zed: other})"}
+						if tpl, err := loadTree(c, "c12tree", files, ".tw"); err == nil && tpl != nil {
+							if o, _ := renderPage(c, tpl, "page", map[string]any{"v": gv.goVal, "label": "from Go data", "other": 1}); !o.Panicked && (o.Err != nil || o.Out != "[arg|from Go data|1]") {
+								c.Violation("data-shadowed-by-argument", fmt.Sprintf("component arguments {label: \"arg\", title: label, zed: other} with data label = \"from Go data\" rendered %s", o.Describe()), map[string]any{"files": describeFiles(files)})
+							}
+						}
+					}
 					// the whole value through functions that look mutating, then immutability
 					for _, src := range []string{"{{ v }}", "@dump(v)", "@each(e in v){{ e }}@end", "{{ v.reverse().append(1) }}", "{{ x = v }}{{ x = v }}"} {
 						c.Input(map[string]any{"source": src, "data": desc})
